@@ -81,8 +81,10 @@ type Interp struct {
 	entryKey  string
 	entryDone bool
 	MaxArity  int // enumerated bound for field counts / tuple lengths
-	globals   map[*types.Var]*Value
-	Plugin    string
+	// NameVariants: also explore function types without parameter names
+	NameVariants bool
+	globals      map[*types.Var]*Value
+	Plugin       string
 }
 
 type Run struct {
